@@ -79,9 +79,28 @@ func passPhases(p *simkube.Pass, owner *pkomodel.Owner) []passPhase {
 		} else {
 			pp.Local = ph.Class == ""
 			for _, sl := range ph.Slices {
+				found := false
 				for _, r := range p.Requests {
 					if r.Verb == "get" && strings.HasSuffix(r.GVK.Kind, "ObjectSlice") && r.Key.Name == sl && r.Err == nil && r.Post != nil {
 						pp.Objects = append(pp.Objects, pkomodel.SliceObjects(r.Post, owner.NS)...)
+						found = true
+						break
+					}
+				}
+				if found {
+					continue
+				}
+				// the pass did not get hold of the slice (stale cache, error): the phase still consists of what the stored
+				// slice lists - a pass that goes on without it must not be judged on the part it happened to see
+				for _, r := range p.Requests {
+					if r.GVK.Kind == owner.Kind && r.Key.Name == owner.Name {
+						kind := "ObjectSlice"
+						if owner.Cluster {
+							kind = "ClusterObjectSlice"
+						}
+						if so := r.InStore().PeekKey(simkube.Key{Group: pkomodel.Group, Kind: kind, Namespace: owner.NS, Name: sl}); so != nil {
+							pp.Objects = append(pp.Objects, pkomodel.SliceObjects(so, owner.NS)...)
+						}
 						break
 					}
 				}
